@@ -198,3 +198,9 @@ def candidates(sc):
             yield dict(copy.deepcopy(sc), readouts=[dict(copy.deepcopy(first), lines=red) for _ in sc["readouts"]])
         if first["ident"] != "/ABC5":
             yield dict(copy.deepcopy(sc), readouts=[dict(copy.deepcopy(first), ident="/ABC5") for _ in sc["readouts"]])
+
+
+def trace(sc):
+    wire, sent, lead = wire_of(sc)
+    yield f"stream: {len(sent)} readouts, {len(wire)} octets, leading tail {lead}"
+    yield from reader_rig.trace_feed("p1", None, wire, sc["cuts"])
